@@ -144,9 +144,12 @@ def truthiness_uses(fn_node, name):
             tests.extend(n.ifs)
         for t in tests:
             for c in (conjuncts(t) if not isinstance(t, ast.BoolOp) or isinstance(t.op, ast.And) else disjuncts(t)):
+                if isinstance(c, ast.UnaryOp) and isinstance(c.op, ast.Not):
+                    c = c.operand
+                # the truth value of as_list(x) / list(x) / len(x) ... is that of x for every empty container (and None for as_list)
+                while isinstance(c, ast.Call) and call_name(c) in ('as_list', 'as_tuple', 'list', 'tuple', 'len', 'sorted', 'set') and len(c.args) == 1 and not c.keywords:
+                    c = c.args[0]
                 if isinstance(c, ast.Name) and c.id == name:
-                    out.append(n)
-                if isinstance(c, ast.UnaryOp) and isinstance(c.op, ast.Not) and isinstance(c.operand, ast.Name) and c.operand.id == name:
                     out.append(n)
     # de-duplicate preserving order
     seen, res = set(), []
@@ -387,7 +390,7 @@ def sym_paths(fn, bound=512):
                                 e2[root.id] = ast.Name(id='%s__modified_at_%d' % (root.id, getattr(s, 'lineno', 0)), ctx=ast.Load())
                     nxt.append((conds, e2, eff))
                 elif isinstance(s, ast.Expr):
-                    nxt.append((conds, env, eff + [sub(s.value, env)]))
+                    nxt.append((conds, env, eff + ([sub(s.value, env)] if not isinstance(s.value, ast.Constant) else [])))
                 else:
                     nxt.append((conds, env, eff))
             states = nxt
